@@ -19,6 +19,9 @@ BUILT = {
     'C08': ('inductive-step enumeration over a pointer-edge state alphabet with invariant monitors on the real simulators; TLC model checking of a TLA+ latch model with every edge of the dumped state graph replayed on every paging implementation; exhaustive two/three-write port histories',
             'A: every opcode slot (and interrupt acceptance) executed from every state of an alphabet that aims all pointers and the stack at the ROM/RAM and 64K edges, on all four simulators x {48K, 128K ROM 0, 128K ROM 1}, with monitors for ROM immutability, register and cell ranges and a monotone clock (inductive step). B: models/Paging128.tla (0x7FFD latch: decode, bank/ROM select, sticky lock) is model-checked by TLC and every edge of its state graph is replayed on 10 paging bindings (pagingtracer.PagingTracer both write_port variants with all four simulators, C internal paging without tracer, skoolmacro.PagingTracer/AudioTracer128 with skoolutils.Memory), source states reached three ways, driven by real OUT instructions and observed through simulated marker stores into every 16K region. C: all 256 x 256 two-write histories (thorough: on every binding and 4 port decodes, plus three-write histories over 64 value classes).',
             'Trusted: TLC, the TLA+ model as the statement of the documented latch, CPython, gcc. Part A is an inductive argument over the stated state alphabet (pointers exactly at the two edges); part C quick uses value classes on the secondary bindings.'),
+    'C10': ('crash-point style enumeration: every instruction boundary of every generated program is a save point, through the real tool, over configuration deviations',
+            'For every program (prologue + each letter of a stateful alphabet + epilogue with IM 2 interrupt, HALT wait, prefix chain, LDIR, port writes, 128K paging/AY) and every split point n1 = 1..N-1, trace.main run for N instructions equals trace.main run for n1, snapshot, then N-n1 from the snapshot: all registers incl. R and MEMPTR (SZX), all RAM banks, border, fe, 7ffd, fffd, AY, iff, im, T mod frame. Configurations: deviations (d <= 1 quick, d <= 2 thorough) over {szx,z80} x {48K,128K} x {plain,--cmio} x {C,--python} x start T (frame-180, three frames later, frame-60, 2^24-170).',
+            'Both legs start from the same initial SZX file (common mode). For .z80 mid files MEMPTR, the MEMPTR-derived F bits 3/5 under --cmio and the port-0xFE byte (no field in the format beyond the border colour) are exempt. Programs other than the generated ones are not covered.'),
     'C19': ('exhaustive enumeration of both contention delay tables and of a bounded placement x frame-position space per opcode slot, on the real contended simulators against a reference bus-cycle/ULA model',
             'Both delay tables read back completely (a NOP at every one of the 69888/70908 frame positions), and every opcode slot x operand fillings x placements of PC, data pointers, stack and port address (ROM, contended, uncontended, 0xC000 with even/odd bank) x I register x both condition outcomes x every phase of the wait pattern at both ends of the contended window (first, middle, last line; frame edges), on CMIOSimulator and CCMIOSimulator: state equals the reference semantics, T delta equals documented duration plus the sum over the reference bus cycles of the published wait pattern, Python == C.',
             'Trusted: mc/refs/z80ref.py bus-cycle lists per instruction class (published contention table) and mc/refs/ula.py (published wait pattern and frame layouts). Frame positions outside the enumerated set (quick: ~90; thorough: four whole lines + edges) are covered only by the table read-back with a NOP. Interrupt acceptance is not part of this property.'),
